@@ -18,7 +18,7 @@ Legs
 OER is left out: asn_OP_OPEN_TYPE has no OER encoder (slot 0; encoding a Frame fails), the property names
 BER, XER, PER.
 """
-import collections, json, os, re, shutil, threading
+import collections, json, os, re, shutil, threading, time
 from concurrent.futures import ThreadPoolExecutor
 from .. import build, bundle, core, genmod, genmod_ioc, gfind, sexp
 from . import c01
@@ -26,6 +26,9 @@ from . import c01
 DS = ("gen_c18_driver.c", "ops_gen_core.c", "ops_gen_c18.c", "reflect.c")
 OPTS = ("-no-gen-example", "-fcompound-names")
 SYN = ("der", "uper", "xer", "cxer")
+# crashes are frequent on the unchanged tree (F105): no symbolizer / stack traces in the batch runs (a crash costs two
+# process runs in run_c_bisect); classify_crash re-runs the single line with full reports when it needs the stack
+FAST = {"ASAN_OPTIONS": "detect_leaks=1:abort_on_error=0:allocator_may_return_null=1:symbolize=0", "UBSAN_OPTIONS": "print_stacktrace=0:halt_on_error=1"}
 PROPOSED = os.path.join(os.path.dirname(os.path.abspath(__file__)), "c18_findings.json")
 
 # ------------------------------------------------------------------ small oracles (written from X.690 / X.691)
@@ -232,6 +235,7 @@ class Run:
         self.skipped = collections.Counter()
         self.stats = collections.Counter()
         self.kdis = []
+        self.times = collections.Counter()
 
     def fail(self, cls, m, line, out, extra=None):
         self.fails[cls] += 1
@@ -245,16 +249,15 @@ def model_lines(ctx, lines):
     if rc != 0 or len(outs) != len(lines): raise RuntimeError("model driver failed: " + err[-300:])
     return outs
 
-def check_module(R, m, exe, nvals, nmut, findings):
+def k_table_select(R, m, exe, want_complete=True):
+    """K: dumped table (+ alignment with the member's CHOICE elements) vs buildTable; generated selector vs select.
+    P: the table holds exactly the objects of the set (only asked for inside the clean domain)."""
     ctx = R.ctx
-    ioc = m["ioc"]; env = dict(m["types"]); f = ioc["frame"]
-    rows = ioc["rows"]
-    vg = genmod.ValGen(ctx.rng, env)
-    # ---------------- table / selector (K1, P1)
+    ioc = m["ioc"]; rows = ioc["rows"]
     outs, _ = ctx.run_c_bisect(exe, ["@Frame ioc"])
     info = parse_ioc(outs[0] or "")
     if not info or not info["members"] or info["rows"] is None:
-        R.fail("ioc-dump", m, "@Frame ioc", outs[0]); return
+        R.fail("ioc-dump", m, "@Frame ioc", outs[0]); return None
     mem = info["members"][0]
     elems = mem.get("elems", [])
     ctab = [(id_of_sexp(r.get("id")), r.get("type")) for r in info["rows"]]
@@ -265,7 +268,7 @@ def check_module(R, m, exe, nvals, nmut, findings):
     if not all(r.get("aligned") for r in info["rows"]) or len(elems) != len(ctab):
         R.fail("table-not-aligned-with-choice-elements", m, "@Frame ioc", outs[0])
     spec = set(genmod_ioc.spec_objects(m))
-    if {(repr(i), t) for i, t in ctab} != spec:
+    if want_complete and {(repr(i), t) for i, t in ctab} != spec:
         R.fail("table-incomplete", m, "@Frame ioc", outs[0], {"expected_objects": sorted(spec)})
     mo = model_lines(ctx, ["c18tbl " + genmod_ioc.model_items(m)])[0]
     mm = re.match(r"ext=(\d) n=(\d+) rows=(\S+)$", mo)
@@ -276,25 +279,39 @@ def check_module(R, m, exe, nvals, nmut, findings):
         ctx.cov["correspondence"]["table"]["disagreements"] += 1
         R.kdis.append({"kind": "table", "module": genmod_ioc.module_text(m), "c": str(ctab), "model": mo})
     tbl_txt = ",".join(f"{i}:{ti[t]}" for i, t in ctab) or "-"
-    ids = [r["id"] for r in rows]
+    ids = []
+    for r in rows:
+        if r["id"] not in ids: ids.append(r["id"])
     unknown = []
     pool = [0, 1, -1, 5, 6, 11, 299, 301, 32766, 40000, 70000, -7] if ioc["idkind"] == "INTEGER" else [0, 1, 4, 5, 6, 11, 299, 301, 20000, 32766]
     for u in pool + [i + 1 for i in ids] + [i - 1 for i in ids]:
         if u not in ids and u not in unknown and (ioc["idkind"] == "INTEGER" or 0 <= u <= 32767): unknown.append(u)
     unknown = unknown[:6]
-    sel_lines = [f"@Frame select (seq (ident (int {i})))" for i in ids + unknown]
-    sel_model = [f"c18sel {tbl_txt} {i}" for i in ids + unknown]
-    co, _ = ctx.run_c_bisect(exe, sel_lines)
-    mo2 = model_lines(ctx, sel_model)
-    st = ctx.cov["correspondence"].setdefault("select", {"lines": 0, "disagreements": 0, "c_crashes": 0})
-    for l, c, mdl in zip(sel_lines, co, mo2):
-        st["lines"] += 1
-        p, ty = mdl.split()
-        want = f"{p} {names_by_ti[int(ty)] if ty != '-' else '-'}"
-        if c != want:
-            st["disagreements"] += 1
-            R.kdis.append({"kind": "select", "module": genmod_ioc.module_text(m), "op": l, "c": c, "model": want})
-        else: ctx.count_nontrivial(("select", m["name"], l))
+    if mem.get("selector") == "1":
+        sel_lines = [f"@Frame select (seq (ident (int {i})))" for i in ids + unknown]
+        sel_model = [f"c18sel {tbl_txt} {i}" for i in ids + unknown]
+        co, _ = ctx.run_c_bisect(exe, sel_lines)
+        mo2 = model_lines(ctx, sel_model)
+        st = ctx.cov["correspondence"].setdefault("select", {"lines": 0, "disagreements": 0, "c_crashes": 0})
+        for l, c, mdl in zip(sel_lines, co, mo2):
+            st["lines"] += 1
+            p, ty = mdl.split()
+            want = f"{p} {names_by_ti[int(ty)] if ty != '-' else '-'}"
+            if c != want:
+                st["disagreements"] += 1
+                R.kdis.append({"kind": "select", "module": genmod_ioc.module_text(m), "op": l, "c": c, "model": want})
+            else: ctx.count_nontrivial(("select", m["name"], l))
+    return info, mem, elems, ctab, ti, names_by_ti, tbl_txt, ids, unknown
+
+def check_module(R, m, exe, nvals, nmut, findings):
+    ctx = R.ctx
+    ioc = m["ioc"]; env = dict(m["types"]); f = ioc["frame"]
+    rows = ioc["rows"]
+    vg = genmod.ValGen(ctx.rng, env)
+    # ---------------- table / selector (K1, P1)
+    k1 = k_table_select(R, m, exe)
+    if k1 is None: return
+    info, mem, elems, ctab, ti, names_by_ti, tbl_txt, ids, unknown = k1
     # paired row per identifier as the *standard* says (UNIQUE ids): id -> row type name
     paired = {}
     for i, t in genmod_ioc.spec_objects(m): paired.setdefault(i, t)
@@ -303,6 +320,10 @@ def check_module(R, m, exe, nvals, nmut, findings):
     simple_uper = f["id_first"] and not f["seq_ext"] and not any(e["pos"] in ("pre", "mid") for e in f["extras"])
     nopt_post = sum(1 for e in f["extras"] if e["opt"])
     vpos = [k for k, _ in genmod_ioc.frame_members(m)].index("value")
+    T0 = time.time()
+    def tick(name):
+        nonlocal T0
+        R.times[name] += time.time() - T0; T0 = time.time()
     # ---------------- values, round trips (P2), framing (P3)
     lines = []; meta = []
     rowvals = {}
@@ -376,6 +397,7 @@ def check_module(R, m, exe, nvals, nmut, findings):
                 if fbits[:len(pre)] != pre or fbits[len(pre):len(pre) + len(field)] != field:
                     R.fail("uper-framing", m, l, o, {"frame_uper": h, "expected_prefix": pre, "expected_field": field[:200]})
                 else: R.stats["uper_framing_ok"] += 1
+    tick("roundtrip")
     # ---------------- mismatches and unknown identifiers (P4, P5) + get-level correspondence (K2)
     # a syntax in which some row type has no codec at all (F32: SET under UPER) is left out of the mismatch /
     # mutation tests of this module: a mutated identifier could select that row
@@ -408,7 +430,9 @@ def check_module(R, m, exe, nvals, nmut, findings):
             R.fail("encode-of-frame-failed", m, l, o); continue
         h = o.split()[1]
         dec_lines.append(f"@Frame odec {me[1]} {h}"); dec_meta.append(me + (h,))
-    douts, _ = ctx.run_c_bisect(exe, dec_lines)
+    tick("enc")
+    douts, _ = ctx.run_c_bisect(exe, dec_lines, env=FAST)
+    tick("dec")
     # inner outcome of every row type's own decoder on the member's bytes (input of the model)
     inner_lines = []; inner_idx = []
     for k, (l, o, me) in enumerate(zip(dec_lines, douts, dec_meta)):
@@ -433,6 +457,7 @@ def check_module(R, m, exe, nvals, nmut, findings):
             else: inner_lines.append(f"@{tname} dec {'der' if syn == 'der' else 'xer'} {member}")
             inner_idx.append((k, tname, len(member)))
     iouts, _ = ctx.run_c_bisect(exe, inner_lines)
+    tick("inner")
     inner = collections.defaultdict(dict)
     for (k, tname, mlen), l, o in zip(inner_idx, inner_lines, iouts):
         o = str(o); syn = dec_meta[k][1]
@@ -488,6 +513,7 @@ def check_module(R, m, exe, nvals, nmut, findings):
                 gst["disagreements"] += 1
                 R.kdis.append({"kind": "get", "module": genmod_ioc.module_text(m), "op": l, "c": o[:200], "model": model_of[k], "model_op": glines[gk.index(k)]})
             if got == "crash": gst["c_crashes"] += 1
+    tick("classify")
     # ---------------- mutated encodings (P6)
     mlines = []; mmeta = []
     budget = nmut if not unsafe else max(40, nmut // 8)
@@ -504,7 +530,8 @@ def check_module(R, m, exe, nvals, nmut, findings):
             if key in seen: continue
             seen.add(key)
             mlines.append(f"@Frame odec {'xer' if syn == 'cxer' else syn} {mb.hex() or '-'}"); mmeta.append(syn)
-    mouts, _ = ctx.run_c_bisect(exe, mlines)
+    mouts, _ = ctx.run_c_bisect(exe, mlines, env=FAST)
+    tick("mut-run")
     for l, o, syn in zip(mlines, mouts, mmeta):
         o = str(o)
         R.stats["mutated"] += 1
@@ -525,6 +552,7 @@ def check_module(R, m, exe, nvals, nmut, findings):
                 R.fail(f"decoded-type-not-paired-type:mutated:{syn}", m, l, o)
             else: ctx.count_nontrivial(("mut-ok", syn, l[-40:]))
         else: ctx.count_nontrivial(("mut", syn, p[0], l[-24:]))
+    tick("mut-classify")
     if not unsafe: R.stats["modules_all_rows_size_led_specifics"] += 1
 
 # ------------------------------------------------------------------ framing correspondence on a fixed module
@@ -626,6 +654,9 @@ def probe_shapes(R, findings):
                 fsx = genmod_ioc.frame_sexp(m, row["id"], row["name"], sx, None, env)
                 for syn in ("der", "uper", "cxer"):
                     if not c01.skip_region(syn, gfind.features(t, env), collections.Counter()): lines.append(f"@Frame rt {syn} {fsx}")
+            if ioc["idkind"] != "OID":
+                k_table_select(R, m, exe, want_complete=False)      # K also outside the clean domain (duplicate ids, dropped rows)
+                R.stats["modules"] -= 1
             outs, _ = ctx.run_c_bisect(exe, lines)
             info = parse_ioc(str(outs[0])) or {"rows": None}
             nrows = len(info["rows"] or [])
@@ -686,7 +717,7 @@ def run(ctx):
                     continue
                 built += 1
                 check_module(R, m, exe, nvals, nmut, findings)
-                ctx.log("module", m["name"], "rows", len(m["ioc"]["rows"]), dict(R.stats).get("mutated"), sum(R.known.values()))
+                ctx.log("module", m["name"], "rows", len(m["ioc"]["rows"]), dict(R.stats).get("mutated"), sum(R.known.values()), {k: round(v, 1) for k, v in R.times.items()})
             finally:
                 cleanup(b)
     ctx.cov["evaluations"] += R.stats["cases"] + R.stats["mutated"] + sum(v for k, v in R.stats.items() if k.startswith("decodes_"))
